@@ -428,7 +428,7 @@ func (c *CallTree) add(from common.Address, to *common.Address, data []byte, val
 	newCall := &Call{
 		From:  from,
 		To:    to,
-		Data:  data,
+		Data:  common.CopyBytes(data), // the caller's memory may be overwritten later
 		Value: value,
 		Gas:   gas,
 
